@@ -18,6 +18,9 @@ pub fn run_harness(ctx: &Ctx, exe: &std::path::Path, mode: &str, exclude: &[Stri
     if let Some(r) = replay {
         cmd.env("VERIF_E1_REPLAY", r);
     }
+    if let Some((_, sc, nw)) = subjects::HARNESS_REQUESTED.lock().unwrap().iter().rev().find(|(e, _, _)| e == exe) {
+        cmd.env("VERIF_E1_SERDE_COMPAT", if *sc { "1" } else { "0" }).env("VERIF_E1_NO_SERDE_WARNINGS", if *nw { "1" } else { "0" });
+    }
     // a proc-macro test binary links libstd dynamically
     let (_, sysroot, _) = run(Command::new("rustc").current_dir(ctx.subjects()).args(["--print", "sysroot"]));
     let (_, host, _) = run(Command::new("rustc").args(["-vV"]));
